@@ -81,6 +81,9 @@ type verifEmbedArg struct {
 	N          json.RawMessage `json:"n"`
 	hidden     int
 	Skip       int `json:"-"`
+	// encoding/json names this field "-" (the comma makes it a name, not the
+	// omission marker), so it is a positional slot.
+	Dash json.RawMessage `json:"-,"`
 }
 
 // Harness_C15_embedded: the array-to-field mapping follows the documented
@@ -93,16 +96,19 @@ func Harness_C15_embedded() {
 	h := fi.Wrap()
 	xtok := nondetToken("x")
 	ntok := nondetToken("n")
+	dtok := nondetToken("d")
 	assume(tokKind(xtok) != tkInvalid && tokKind(xtok) != tkNull && tokKind(ntok) != tkInvalid && tokKind(ntok) != tkNull)
+	assume(tokKind(dtok) != tkInvalid && tokKind(dtok) != tkNull)
 	inner := tokObject([]string{"x"}, []json.RawMessage{xtok})
-	n := 1 + nondetChoice("elements", 3)
-	elems := []json.RawMessage{inner, ntok, tokLit("3")}[:n]
+	n := 1 + nondetChoice("elements", 4)
+	elems := []json.RawMessage{inner, ntok, dtok, tokLit("3")}[:n]
 	parsed, _ := jrpc2.ParseRequests(tokObject([]string{"jsonrpc", "id", "method", "params"},
 		[]json.RawMessage{tokString("2.0"), tokLit("1"), tokString("m"), tokArray(elems)}))
 	_, herr := h(context.Background(), parsed[0].ToRequest())
-	if n == 2 {
+	if n == 3 {
 		vassert(herr == nil && calls == 1, "C15: an array with one element per positional field is accepted")
 		vassert(tokSame(got.X, xtok) && tokSame(got.N, ntok), "C15: element i is decoded into positional field i")
+		vassert(tokSame(got.Dash, dtok), "C15: a field tagged \"-,\" is named \"-\" and is a positional slot")
 		reach("embedded-mapped")
 	} else {
 		vassert(calls == 0 && herr != nil && jrpc2.ErrorCode(herr) == jrpc2.InvalidParams, "C15: any other array length is InvalidParams without a call")
